@@ -959,7 +959,16 @@ func (rl *Shell) killRegion() {
 		return
 	}
 
+	// Point ends where the region was: it may have been at its end, or inside
+	// it (a region set by exchange-point-and-mark includes the character
+	// under the cursor).
+	bpos, _ := rl.selection.Pos()
+
 	rl.Buffers.Write([]rune(rl.selection.Cut())...)
+
+	if bpos >= 0 {
+		rl.cursor.Set(bpos)
+	}
 }
 
 // Copy the text in the region to the kill buffer.
